@@ -145,7 +145,10 @@ def c02_json(w, ev, slot):
     w.stats['clock.stamped'] += 1
     w.case('c02.json', 'to_json', slot, explicit=explicit, weird=weird)
     try:
-        text = t.to_json(gen_by, **kw)
+        if (a >> 5) & 1:
+            text = t.to_json(gen_by, None, kw.get('creation_date'))
+        else:
+            text = t.to_json(gen_by, **kw)
     except Exception as e:  # noqa
         w.fail('c02.write_raised', 'to_json raised %r' % (e,))
     # streamed form
